@@ -2017,14 +2017,14 @@ func (s *Netceptor) runProtocol(ctx context.Context, sess BackendSession, bi *Ba
 			select {
 			case s.sendRouteFloodChan <- 0:
 				verifhook.Emit(s.vn, "req_update", "peer", remoteNodeID)
-			case <-ctx.Done(): // ctx is a child of s.context
+			case <-s.context.Done(): // the tick runners live as long as the node; ctx is also done after CancelBackends
 				verifhook.Emit(s.vn, "req_skip", "peer", remoteNodeID, "what", "update")
 				return
 			}
 			select {
 			case s.updateRoutingTableChan <- 0:
 				verifhook.Emit(s.vn, "req_rebuild", "peer", remoteNodeID)
-			case <-ctx.Done():
+			case <-s.context.Done():
 				verifhook.Emit(s.vn, "req_skip", "peer", remoteNodeID, "what", "rebuild")
 				return
 			}
